@@ -1,9 +1,10 @@
 """G -> X -> V pipeline of property C12 (undo / redo), engine `undo`.
 
 G  : spec/MC_Undo.tla enumerates PROGRAMS (tracked edits, ticks / stop, every undo/redo word, foreign local edits, remote
-     edits with delayed delivery) per tracked root kind; this module adds configuration, an out-of-scope prologue, the
-     closing deliveries to the observers 8 / 9 and the closing syncs.  Seeded deep programs (long random words over the
-     same alphabet, three tracked scopes incl. two roots) complement the enumeration.
+     edits with delayed delivery) per tracked root kind (text, array, map, XML fragment); this module adds configuration,
+     an out-of-scope prologue, for the XML groups `p*` the prepared content of another origin, the closing deliveries to
+     the observers 8 / 9 and the closing syncs.  Seeded deep programs (long random words over the same alphabet, tracked
+     scopes incl. two roots; a separate family `deepx` for XML scopes) complement the enumeration.
 X  : harness extension harness/src/ext/undo.rs through `yx yata-run --repeat 5` (the library is hash-order
      nondeterministic in undo: every behaviour is executed five times, differing outcomes give a `nondet` event).
      The schedule file is split and executed by several yx processes.
@@ -352,7 +353,7 @@ def run_x_parallel(scheds, wd):
 
 def _slim(e):
     """what known-finding patterns may look at (tools/patterns.py): the C12-relevant part of an event"""
-    out = {k: e[k] for k in ("k", "r", "t", "call", "ret", "us", "rs", "uv", "uc", "stk", "outcome", "u") if k in e}
+    out = {k: e[k] for k in ("k", "r", "t", "call", "ret", "us", "rs", "uv", "uc", "stk", "alias", "outcome", "u") if k in e}
     if "upd" in e:
         out["upd"] = {"ins": [{k: u[k] for k in ("id", "o", "ro", "cont", "sub", "par", "kind")} for u in e["upd"].get("ins", [])],
                       "del": e["upd"].get("del", [])}
@@ -462,7 +463,9 @@ def check(prop, tier):
         results.append(r)
         ev.add_v(r["group"], r["merged"], r["nontrivial"], r["v_wall"])
     ev.cov["rule"] = ("behaviours = programs enumerated by TLC from MC_Undo (per tracked root kind text / array with nested map / "
-                      "map with nested arrays: every sequence of tracked edits within the bound, every grouping into capture steps "
+                      "map with nested arrays / XML fragment [elements with attributes and children, text nodes with characters and "
+                      "formatting; from the empty fragment and on content prepared by another origin]: "
+                      "every sequence of tracked edits within the bound, every grouping into capture steps "
                       "by ticks / stop, every undo/redo word of the given length at every position, foreign local edits and remote "
                       "edits of replica 2 with delayed delivery) -- sampled per stratum (number of foreign edits) where the group is "
                       "larger than the tier's budget -- plus seeded deep programs; each executed 5 times on the real library and "
@@ -471,6 +474,8 @@ def check(prop, tier):
     ev.cov["exhaustive"] = False
     ev.cov["exhaustive_groups"] = exhaustive
     ev.cov["repeat_per_behaviour"] = REPEAT
+    ev.cov["xml_groups"] = {r["group"]: r["merged"]["cnt"]["beh"] for r in results
+                            if r["group"] in XML_GROUPS or r["group"].startswith("deepx")}
     ev.cov["harness_build_s"] = round(bt, 1)
     ev.assumptions = ["TLC, CommunityModules", "harness adapters and observation functions (obs.rs, codec.rs, ext/undo.rs)",
                       "hook H1 (yrs::verif) reports the item lists faithfully",
@@ -489,11 +494,14 @@ def manifest_entries():
         "replay_cmd_template": "./check replay {path}",
         "engine": "TLC (MC_Undo: program enumeration + design invariants; Trace_Undo: trace validation) + harness ext/undo.rs",
         "level_claimed": {"category": "model_checking",
-                          "text": "bounded: TLC-enumerated undo/redo programs (<= 3 tracked edits x every undo/redo word of length 3 "
-                                  "quick; <= 4-5 edits, <= 2 foreign edits thorough) and seeded deep programs, executed on the real "
-                                  "UndoManager and validated against the inverse-law / isolation specification",
+                          "text": "bounded: TLC-enumerated undo/redo programs over text, array, map and XML scopes (<= 3 tracked edits "
+                                  "x every undo/redo word of length 3 quick; <= 4-5 edits, <= 2 foreign edits thorough) and seeded "
+                                  "deep programs, executed on the real UndoManager and validated against the inverse-law / isolation "
+                                  "specification",
                           "design_ref": "DESIGN.md section 6/C12, section 3.5"},
         "level_note": "inverse law checked wherever no other origin edited a tracked type since the boundary; otherwise isolation "
-                      "predicates only (re-creation position is implementation freedom); XML scopes not covered",
+                      "predicates only (re-creation position is implementation freedom); XML scope = one fragment root with "
+                      "elements (attributes, children), text nodes (characters, one format key), nesting depth <= 3; XML hooks / "
+                      "embeds inside XML text are not generated",
         "technique": "explicit TLA+ specification + TLC + conformance binding (G->X->V)",
     }]
